@@ -147,7 +147,31 @@ func newCalBackend(prefix string, seed uint64) *calBackend {
 		for k := 0; k < r.Intn(4); k++ {
 			p := fmt.Sprintf("%se%d.ics", c.Path, k)
 			data := newEvent(fmt.Sprintf("uid-%d-%d", i, k), rt.Pick(r, []string{"Lunch", "Meeting; with, commas", "Ünïcode", "a\\b"}), time.Date(2024, 1, 1+k, 10, 0, 0, 0, time.UTC))
-			switch r.Intn(8) {
+			switch r.Intn(12) {
+			case 3: // recurring, with a duration instead of an end
+				data.Children[0].Props.Del(ical.PropDateTimeEnd)
+				data.Children[0].Props.SetText(ical.PropDuration, "PT45M")
+				rr := ical.NewProp(ical.PropRecurrenceRule)
+				rr.Value = rt.Pick(r, []string{"FREQ=WEEKLY;COUNT=3", "FREQ=DAILY;UNTIL=20240110T000000Z", "FREQ=MONTHLY;BYMONTHDAY=31", "FREQ=YEARLY;INTERVAL=2;BYMONTH=2;BYMONTHDAY=29"})
+				data.Children[0].Props.Set(rr)
+			case 4: // local time in a zone the object does not define; an alarm inside
+				st := ical.NewProp(ical.PropDateTimeStart)
+				st.Value = "20240102T100000"
+				st.Params.Set(ical.PropTimezoneID, rt.Pick(r, []string{"Europe/Paris", "America/New_York", "Nowhere/Land"}))
+				data.Children[0].Props.Set(st)
+				data.Children[0].Props.Del(ical.PropDateTimeEnd)
+				al := ical.NewComponent(ical.CompAlarm)
+				al.Props.SetText(ical.PropAction, "DISPLAY")
+				al.Props.SetText(ical.PropDescription, "soon")
+				al.Props.SetText(ical.PropTrigger, "-PT15M")
+				data.Children[0].Children = append(data.Children[0].Children, al)
+			case 5: // floating time, end before start
+				st := ical.NewProp(ical.PropDateTimeStart)
+				st.Value = "20240102T100000"
+				data.Children[0].Props.Set(st)
+				en := ical.NewProp(ical.PropDateTimeEnd)
+				en.Value = "20240101T100000"
+				data.Children[0].Props.Set(en)
 			case 0: // no SUMMARY, no DTEND
 				data.Children[0].Props.Del(ical.PropSummary)
 				data.Children[0].Props.Del(ical.PropDateTimeEnd)
